@@ -493,13 +493,17 @@ func anySeq(v interface{}) []interface{} {
 // about the code, not about the record type it sits in, so the finding key carries no type (keyOf).
 const reservedTypeCode = "reserved-type-code"
 
+// gatewayV4Mapped: an IPSECKEY / AMTRELAY gateway of type 2 (IPv6) holding an IPv4-mapped address; both String() methods
+// print it through net.IP.String(), one defect in two copies: no type in the key.
+const gatewayV4Mapped = "gateway-ipv6-v4mapped"
+
 // keyOf is the type + value-class part of a finding key.
 func keyOf(a *wire.RR) string {
 	c := classify(a)
 	switch c {
 	case "":
 		return L.Mnemonic(a.Type)
-	case reservedTypeCode:
+	case reservedTypeCode, gatewayV4Mapped:
 		return c
 	}
 	return L.Mnemonic(a.Type) + ":" + c
@@ -554,6 +558,11 @@ func classify(a *wire.RR) string {
 				}
 			}
 		case "u32":
+			if b := anyBytes(v); a.Type == 29 && len(b) == 4 && e.N == "Altitude" {
+				if uint32(b[0])<<24|uint32(b[1])<<16|uint32(b[2])<<8|uint32(b[3]) < 10000000 {
+					put(6, e.N, "below-origin") // printed with a minus sign
+				}
+			}
 			if b := anyBytes(v); a.Type == 29 && len(b) == 4 && (e.N == "Latitude" || e.N == "Longitude") {
 				if (uint32(b[0])<<24|uint32(b[1])<<16|uint32(b[2])<<8|uint32(b[3]))%1000 != 0 {
 					put(7, "", "fractional-seconds")
@@ -586,6 +595,9 @@ func classify(a *wire.RR) string {
 				put(10, e.N, strClass(anyBytes(s)))
 			}
 		case "name", "cname", "gateway":
+			if e.K == "gateway" && v4mapped(anyBytes(v)) {
+				put(5, "", gatewayV4Mapped)
+			}
 			put(10, e.N, labelClass(anySeq(v)))
 		case "names":
 			for _, n := range anySeq(v) {
